@@ -460,6 +460,11 @@ def m_int_to_string(eng, m, args, dest_ts, st, where):
     return fresh(STRTOK, 'to_string')
 
 
+@model('Vec::as_slice / as_mut_slice / Deref to a slice', r'^Vec::<.+>::(as_slice|as_mut_slice)$|^<Vec<.+> as (?:Deref|DerefMut|AsRef<\[.+\]>)>::(deref|deref_mut|as_ref)$')
+def m_vec_as_slice(eng, m, args, dest_ts, st, where):
+    return args[0]            # a slice of the whole vector is the same reference in this value model
+
+
 @model('Index<usize> for Vec / slices', r'^<(?:Vec<.+>|\[.+\]) as Index(?:Mut)?<usize>>::index(?:_mut)?$')
 def m_index(eng, m, args, dest_ts, st, where):
     v = deref(eng, st, args[0])
